@@ -52,19 +52,25 @@ size_t vg_buf_len;
 #define VG_IN_TXT(p) (__CPROVER_same_object((p), vg_txt) && __CPROVER_POINTER_OFFSET(p) <= vg_txt_len)
 #define VG_IN_BUF(p) (__CPROVER_same_object((p), vg_buf) && __CPROVER_POINTER_OFFSET(p) <= vg_buf_len)
 
-/* sufficient, quantifier-free condition for "p is a NUL-terminated C string":
- * p lies inside one of the two ghost extents, or the object p points into ends in a NUL
- * byte (string literals, exactly sized buffers). */
-#define VCSTR_OK(p) ((p) != NULL && __CPROVER_r_ok((p), 1) && \
-    ((VG_IN_TXT(p) && vg_txt[vg_txt_len] == 0) || (VG_IN_BUF(p) && vg_buf[vg_buf_len] == 0) || \
-     ((const char *) (p))[VREMAIN(p) - 1] == 0))
-/* exact length of such a string where it is known: r is the length of p */
-#define VCSTR_LEN_IS(p, r) ((size_t) (r) < VREMAIN(p) && ((const char *) (p))[(r)] == 0 && \
-    (!VG_IN_TXT(p) || (size_t) (r) == vg_txt_len - __CPROVER_POINTER_OFFSET(p)) && \
-    (!VG_IN_BUF(p) || VG_IN_TXT(p) || (size_t) (r) == vg_buf_len - __CPROVER_POINTER_OFFSET(p)) && \
-    (((const char *) (p))[0] != 0 || (r) == 0) && \
-    (((const char *) (p))[0] == 0 || VREMAIN(p) < 2 || ((const char *) (p))[1] != 0 || (r) == 1) && \
-    (((const char *) (p))[0] == 0 || VREMAIN(p) < 3 || ((const char *) (p))[1] == 0 || ((const char *) (p))[2] != 0 || (r) == 2))
+/* Sufficient, quantifier-free condition for "p is a NUL-terminated C string" and its exact length:
+ *   p lies inside one of the two ghost extents                -> length = extent end - offset
+ *   otherwise p is a SHORT string: a NUL among its first 10 bytes (the literals "", "//", "tcp",
+ *   "localhost" ... that url.c / socket.c pass)               -> length = index of the first NUL
+ * (A byte-indexed-by-object-size formulation "the object ends in NUL" was tried first: one such
+ * clause made the SAT instance 20x larger.) */
+#define VCSTR_B(p, i) (((const char *) (p))[(i)])
+#define VCSTR_SHORT(p) (__CPROVER_r_ok((p), 1) && (VCSTR_B(p, 0) == 0 || (__CPROVER_r_ok((p), 2) && (VCSTR_B(p, 1) == 0 || \
+    (__CPROVER_r_ok((p), 3) && (VCSTR_B(p, 2) == 0 || (__CPROVER_r_ok((p), 4) && (VCSTR_B(p, 3) == 0 || \
+    (__CPROVER_r_ok((p), 5) && (VCSTR_B(p, 4) == 0 || (__CPROVER_r_ok((p), 6) && (VCSTR_B(p, 5) == 0 || \
+    (__CPROVER_r_ok((p), 7) && (VCSTR_B(p, 6) == 0 || (__CPROVER_r_ok((p), 8) && (VCSTR_B(p, 7) == 0 || \
+    (__CPROVER_r_ok((p), 9) && (VCSTR_B(p, 8) == 0 || (__CPROVER_r_ok((p), 10) && VCSTR_B(p, 9) == 0)))))))))))))))))))
+#define VCSTR_SHORT_LEN(p) (VCSTR_B(p, 0) == 0 ? 0 : VCSTR_B(p, 1) == 0 ? 1 : VCSTR_B(p, 2) == 0 ? 2 : VCSTR_B(p, 3) == 0 ? 3 : \
+    VCSTR_B(p, 4) == 0 ? 4 : VCSTR_B(p, 5) == 0 ? 5 : VCSTR_B(p, 6) == 0 ? 6 : VCSTR_B(p, 7) == 0 ? 7 : VCSTR_B(p, 8) == 0 ? 8 : 9)
+#define VCSTR_OK(p) ((p) != NULL && ((VG_IN_TXT(p) && vg_txt[vg_txt_len] == 0) || (VG_IN_BUF(p) && vg_buf[vg_buf_len] == 0) || \
+    VCSTR_SHORT(p)))
+/* r is the length of the C string p (p satisfies VCSTR_OK) */
+#define VCSTR_LEN_IS(p, r) (VG_IN_TXT(p) ? (size_t) (r) == vg_txt_len - __CPROVER_POINTER_OFFSET(p) : \
+    VG_IN_BUF(p) ? (size_t) (r) == vg_buf_len - __CPROVER_POINTER_OFFSET(p) : (size_t) (r) == (size_t) VCSTR_SHORT_LEN(p))
 
 #ifdef VERIF_OWN_STRCHR
 static char *vg_search(const char *s, int c)
